@@ -113,7 +113,9 @@ func buildFamily(c *xs.Ctx) *family {
 			f.content[mname] = pool
 		}
 	}
-	mk([]string{"X1"}, map[string][3]int64{"X2": {0, 4, 1}}, "Ma", true)
+	// X2 (child of X1) carries three times the base plasma: a competitor for X1's height with twice the base plasma (X1h)
+	// beats X1 but not X1's newest pooled descendant, so a rule that compares with the wrong incumbent decides differently
+	mk([]string{"X1"}, map[string][3]int64{"X2": {0, 4, 3}}, "Ma", true)
 	mk([]string{"X1h"}, map[string][3]int64{"X2h": {0, 5, 1}}, "Mb", true)
 	mk([]string{"X1", "X2", "Y1"}, nil, "Mc", true)
 	mk(nil, nil, "Me", true)
